@@ -1034,7 +1034,7 @@ def stream_exhaustive(R, ctab):
 
 
 def stream_random(R, ctab):
-    n = R.pick(220, 1600)
+    n = R.pick(190, 1600)
     cases = []
     for i in range(n):
         rng = C1.case_rng(R.seed, 'c05-random', i, 'ops')
@@ -1085,7 +1085,7 @@ def stream_policy(R, ctab):
 
 # ---- histogram viewer layer state
 def stream_viewer(R):
-    n = R.pick(100, 600)
+    n = R.pick(80, 600)
     done = 0
     try:
         from glue.viewers.histogram.viewer import SimpleHistogramViewer
@@ -1198,7 +1198,7 @@ def stream_histstate(R):
     """keyed cache of HistogramLayerState (no viewer, no layer artist): change ONE input the key has to cover -- the attribute (incl. a different
     attribute with the SAME label, reachable through a non-identity link), a limit, the number of bins, log -- keep every other key field equal,
     read the histogram, compare with freshly constructed state objects that are given the final settings once"""
-    n = R.pick(150, 1200)
+    n = R.pick(80, 1000)
     try:
         from glue.viewers.histogram.state import HistogramViewerState, HistogramLayerState
     except Exception as e:
